@@ -115,6 +115,20 @@ def gen_prout(rng, mode="rand"):
             tkind = mode[2] if isinstance(mode, tuple) and len(mode) > 2 else None
             nlen = mode[3] if isinstance(mode, tuple) and len(mode) > 3 else None
             ts = [D.gen_transport_id(rng, tkind, nlen) for _ in range(n)]
+            if rng.random() < 0.3:
+                # initiator ports that are related: one initiator with several sessions (the same iSCSI name with other
+                # session ids, and without one), the same port listed twice, ports of one protocol that differ in one byte
+                rel = []
+                for t in ts:
+                    rel.append(t)
+                    if "iscsi_name" in t:
+                        for _ in range(rng.randint(1, 3)):
+                            u = D.gen_transport_id(rng, rng.choice(["iscsi1", "iscsi1", "iscsi0"]), None)
+                            u["iscsi_name"] = t["iscsi_name"]
+                            rel.append(u)
+                    elif rng.random() < 0.5:
+                        rel.append(dict(t))
+                ts = rel[:6]
             kw["transport_ids"] = [D.strip_private(t) for t in ts]
             exp["transport_ids"] = [D.expect_transport_id(t) for t in ts]
     a["_kwargs"] = kw
